@@ -378,6 +378,10 @@ def judge_words(inp, obs, lr):
             return {"expected": "model answer", "observed": r, "tags": {**tags, "driver_err": r["err"][:60]}}
         m = Q.decf(r["ok"])
         v = np.array(v)
+        if inp.get("bigscale") and inp["kind"] == "cartan" and "intC" not in inp and v.shape == m.shape:
+            # judged relative to the conditioning: entry (i,j) of a word in the generators D s D^-1 carries the factor d_i/d_j
+            d = np.array([float(F(x)) for x in inp["dvec"]])
+            v, m = v * (d[None, :] / d[:, None]), m * (d[None, :] / d[:, None])
         if v.shape != m.shape or float(np.max(np.abs(v - m))) > 1e-9 * (1 + float(np.max(np.abs(m)))):
             return {"expected": {"word": w, "value": m.tolist()}, "observed": v.tolist(), "tags": {**tags, "len": len(w)}}
     return None
